@@ -13,26 +13,48 @@ from .. import common as C
 from .. import gen_graph as G
 
 PROP = "C14"
-RULE = ("random mixed graphs (0-8 nodes; isolated nodes, bidirected-only nodes, parallel directed+bidirected pairs, "
+RULE = ("three streams, in this order. (1) corpus of past witnesses. (2) STRUCTURED shapes, relabelled at random, embedded in random "
+        "extra nodes/edges and inserted in several orders (tag `shape`): blanket_* (a child of a query node that is also a "
+        "parent of another child / of another query node and has a further parent; shared children; 2-cycles), overlap_* "
+        "(multi-node queries with overlapping neighbourhoods, every set-valued operation), order_* (one graph built in "
+        "adversarial insertion orders: reverse topological edge order, nodes only introduced by edges, bidirected edges "
+        "stored in either orientation), pre_* (explicit orders: linear extensions, arbitrary permutations, partial orders, "
+        "orders with foreign or repeated names, first element in S, S disjoint from the order, empty order), paths_* "
+        "(get_nodes_in_directed_paths on cycles with tails, figure-eights, self-loops, targets behind targets, S and T "
+        "overlapping in both branches, unreachable targets, non-node arguments), district_* (get_district). "
+        "(3) random mixed graphs (0-8 nodes; isolated nodes, bidirected-only nodes, parallel directed+bidirected pairs, "
         "cycles for the operations defined on them, random insertion order) x every operation x random node subsets "
-        "(empty, all, partial, and non-members); thorough adds every mixed graph on <=3 labelled nodes. "
+        "(empty, all, partial, and non-members). "
+        "quick: 30 000 structured + 40 000 random cases; when graph.py changed since integration the quick run also gets the "
+        "exhaustive slice below (ESCALATED_TIER); thorough: 100 000 structured + 200 000 random cases and "
+        "thorough adds EVERY mixed graph without self-loops on 0..3 labelled nodes (1+1+8+512 graphs) x EVERY operation x "
+        "every argument: all subsets S (all pairs S,T for get_nodes_in_directed_paths; every node and one non-node for "
+        "get_district; for pre with an explicit order every S x every permutation of the node set and the empty order; "
+        "for intervene every non-empty S with unstarred interventions) -- exhaustive for that slice; each such case is "
+        "also re-run on one re-shuffled insertion order by the insertion-order oracle. "
         "A case is non-trivial when the graph has >=3 nodes, at least one edge of each kind present or an isolated node, "
         "and the argument set is neither empty nor everything.")
 ASSUMPTIONS = [
     "clause 'the receiver is never modified' is a Python-runtime clause (R): decided by comparing nodes()/edges() of the receiver before and after every call, not by a theorem (the model is pure)",
-    "topological_sort: the theorem says the result is a linear extension for every insertion order; equality of the exact order with networkx is correspondence only",
-    "intervene: node relabelling is modelled as an injective map f; the harness decodes CounterfactualVariable nodes back to base names and checks their subscripts separately",
+    "topological_sort / pre with the default order: the theorems say the result is a linear extension (resp. its prefix before the first member of S) for every insertion order, and that success does not depend on the insertion order; equality of the exact order with networkx is correspondence only",
+    "intervene: node relabelling is modelled as a map f (injective for the edge characterisations); the harness decodes CounterfactualVariable nodes back to base names and checks their subscripts separately",
+    "get_nodes_in_directed_paths: the definition proved and checked is 'nodes on simple directed paths with at least one edge from S to T' (nodesInDirectedPaths_spec, both implementations, after fix 2ae6e11). Arguments that are not nodes are outside the property's quantifier; what the code does with them (ignored on acyclic graphs, NodeNotFound on cyclic ones when both sets are non-empty) is stated by nodesInDirectedPaths_dag_spec / nodesInDirectedPaths_cyclic_error and compared by correspondence only",
+    "theorems are about well-formed graphs (MG.WF: distinct nodes, distinct directed edges, edge endpoints are nodes), which is what from_edges guarantees (wf_fromEdges); graphs mutated behind the API are outside the claim",
 ]
-EXHAUSTIVE = {"quick": False, "thorough": False}
+EXHAUSTIVE = {"quick": False, "thorough": True}
+ESCALATED_TIER = "escalated"   # quick tier when graph.py changed since integration: quick stream + the exhaustive slice
+QUICK_RANDOM = 40000
+QUICK_STRUCTURED = 30000
 LEANCHECK_MODULES = ["Y0.Model.Graph", "Y0.Props.C14"]
 
 OPS_SET = ["subgraph", "remove_in_edges", "remove_out_edges", "remove_nodes_from", "intervene",
            "ancestors_inclusive", "descendants_inclusive", "get_markov_pillow", "get_markov_blanket", "pre"]
 OPS_NOARG = ["districts", "moralize", "disorient", "topological_sort"]
-OPS = OPS_SET + OPS_NOARG + ["nodes_in_directed_paths", "pre_order"]
+OPS = OPS_SET + OPS_NOARG + ["nodes_in_directed_paths", "pre_order", "get_district"]
 CYCLIC_OK = {"subgraph", "remove_in_edges", "remove_out_edges", "remove_nodes_from", "intervene",
              "ancestors_inclusive", "descendants_inclusive", "get_markov_pillow", "get_markov_blanket",
-             "districts", "moralize", "disorient", "topological_sort", "nodes_in_directed_paths"}
+             "districts", "moralize", "disorient", "topological_sort", "nodes_in_directed_paths", "get_district",
+             "pre", "pre_order"}
 
 CORPUS = [
     # F1 witness: A->B, B<->C ; remove_in_edges({B}) must keep A and C
@@ -42,42 +64,363 @@ CORPUS = [
     {"op": "districts", "g": {"nodes": [5], "di": [[0, 1]], "bi": [[1, 2], [3, 0]]}},
     {"op": "topological_sort", "g": {"nodes": [], "di": [[0, 1], [1, 2], [2, 0]], "bi": []}},
     {"op": "nodes_in_directed_paths", "g": {"nodes": [], "di": [[0, 1], [1, 2], [2, 1], [2, 3]], "bi": []}, "S": [0], "T": [3]},
+    # witness of fix 2ae6e11: an unrelated cycle made f(G, {A}, {A}) return {A}; both must be empty
+    {"op": "nodes_in_directed_paths", "g": {"nodes": [], "di": [[0, 1], [2, 3], [3, 2]], "bi": []}, "S": [0], "T": [0]},
+    {"op": "nodes_in_directed_paths", "g": {"nodes": [], "di": [[0, 1], [2, 3]], "bi": []}, "S": [0], "T": [0]},
+    {"op": "nodes_in_directed_paths", "g": {"nodes": [2], "di": [[0, 1], [1, 0]], "bi": []}, "S": [2], "T": [2]},
+    # seeded change C14a (a child already in the blanket was skipped): N=0, C1=1, C2=2, W=3
+    {"op": "get_markov_blanket", "g": {"nodes": [], "di": [[0, 1], [0, 2], [2, 1], [3, 2]], "bi": []}, "S": [0]},
+    {"op": "get_markov_blanket", "g": {"nodes": [4, 6, 5, 3], "di": [[6, 3], [3, 4], [5, 3]], "bi": []}, "S": [6, 4]},
 ]
 
 
+# ---------------------------------------------------------------------------------- structured generators
+#
+# A template is a small graph on symbolic nodes 0..k-1 (its directed edge list is in the insertion order that
+# matters).  `_embed` relabels it injectively into 0..n-1 (so that name order, insertion order and topological
+# order all differ), adds extra nodes and edges, and returns the graph dict plus the relabelling.
+
+def _embed(rng, k, di, bi=(), extra=None, acyclic=True, keep_order=True, pd=0.25, pb=0.2):
+    extra = rng.choice([0, 0, 1, 2, 3]) if extra is None else extra
+    n = k + extra
+    lab = list(range(n))
+    rng.shuffle(lab)                       # symbolic node i -> label lab[i]
+    # a linear order of all n symbolic nodes that extends the template's edges (when it is a DAG)
+    pos = list(range(n))
+    rng.shuffle(pos)
+    if acyclic:
+        # topological positions: repeatedly place a template source, extras anywhere
+        indeg = {i: 0 for i in range(n)}
+        for u, v in di:
+            indeg[v] += 1
+        avail = [i for i in range(n) if indeg[i] == 0]
+        order = []
+        left = [tuple(e) for e in di]
+        while avail:
+            x = avail.pop(rng.randrange(len(avail)))
+            order.append(x)
+            for (u, v) in [e for e in left if e[0] == x]:
+                left.remove((u, v))
+                indeg[v] -= 1
+                if indeg[v] == 0:
+                    avail.append(v)
+        pos = {x: i for i, x in enumerate(order)}
+    else:
+        pos = {x: i for i, x in enumerate(pos)}
+    tdi = [[lab[u], lab[v]] for u, v in di]
+    tbi = [[lab[u], lab[v]] if rng.random() < 0.5 else [lab[v], lab[u]] for u, v in bi]
+    have_d = {tuple(e) for e in tdi}
+    have_b = {frozenset(e) for e in tbi}
+    xdi, xbi = [], []
+    for i in range(n):
+        for j in range(n):
+            if i == j or (i < k and j < k):
+                continue                    # never change the template's own adjacency
+            if (pos[i] < pos[j] or not acyclic) and rng.random() < pd and (lab[i], lab[j]) not in have_d:
+                xdi.append([lab[i], lab[j]])
+                have_d.add((lab[i], lab[j]))
+            if i < j and rng.random() < pb and frozenset((lab[i], lab[j])) not in have_b:
+                xbi.append([lab[i], lab[j]])
+                have_b.add(frozenset((lab[i], lab[j])))
+    if keep_order:
+        # template edges first, in template order (what the shape is about); extras spliced around them at random
+        alldi = list(tdi)
+        for e in xdi:
+            alldi.insert(rng.choice([0, len(alldi)]), e)
+    else:
+        alldi = tdi + xdi
+        rng.shuffle(alldi)
+    allbi = tbi + xbi
+    rng.shuffle(allbi)
+    nodes = [lab[i] for i in range(n)]
+    rng.shuffle(nodes)
+    mode = rng.random()
+    if mode < 0.35:
+        touched = {x for e in alldi + allbi for x in e}
+        nodes = [v for v in nodes if v not in touched]     # nodes introduced by edges only
+    elif mode < 0.5:
+        nodes = sorted(nodes, reverse=True)
+    return {"nodes": nodes, "di": alldi, "bi": allbi}, lab
+
+
+def _sub(rng, xs, p=0.5):
+    return [x for x in xs if rng.random() < p]
+
+
+def _shape_blanket(rng):
+    """get_markov_blanket / pillow shapes: a child of a query node that is already in the blanket when visited"""
+    v = rng.choice(["child_is_coparent", "child_is_coparent_rev", "child_is_parent_of_query", "shared_child",
+                    "two_cycle", "chain_of_children", "child_in_query"])
+    N, C1, C2, W, M = 0, 1, 2, 3, 4
+    acyclic = True
+    if v == "child_is_coparent":          # N->C1 before N->C2, C2->C1, W->C2 : C2 enters the blanket as parent of C1
+        k, di, q = 4, [(N, C1), (N, C2), (C2, C1), (W, C2)], [N]
+    elif v == "child_is_coparent_rev":    # same graph, the other insertion order
+        k, di, q = 4, [(W, C2), (C2, C1), (N, C2), (N, C1)], [N]
+    elif v == "child_is_parent_of_query":  # query {M, N}: C2 -> M, N -> C2, W -> C2
+        k, di, q = 5, [(C2, M), (N, C2), (W, C2)], [M, N]
+    elif v == "shared_child":             # N -> C1 <- M, W -> C1, C1 -> C2 <- N
+        k, di, q = 5, [(N, C1), (M, C1), (W, C1), (C1, C2), (N, C2)], [N, M]
+    elif v == "two_cycle":                # N <-> C2 as two directed edges, W -> C2
+        k, di, q, acyclic = 4, [(C2, N), (N, C2), (W, C2), (N, C1)], [N], False
+    elif v == "chain_of_children":        # N -> C1 -> C2, N -> C2, W -> C2, M -> C1
+        k, di, q = 5, [(N, C1), (C1, C2), (N, C2), (W, C2), (M, C1)], [N]
+    else:                                 # a child that is itself queried: N -> C1, C1 -> C2, W -> C1, M -> C2
+        k, di, q = 5, [(N, C1), (C1, C2), (W, C1), (M, C2)], [N, C1]
+    g, lab = _embed(rng, k, di, bi=_sub(rng, [(N, W), (C1, C2)], 0.3), acyclic=acyclic,
+                    keep_order=rng.random() < 0.7)
+    S = [lab[x] for x in q]
+    if rng.random() < 0.25:               # enlarge the query by a random other node
+        S.append(rng.choice(G.all_nodes(g)))
+        S = list(dict.fromkeys(S))
+    rng.shuffle(S)
+    op = rng.choice(["get_markov_blanket"] * 4 + ["get_markov_pillow"])
+    return {"op": op, "g": g, "S": S, "shape": "blanket_" + v}
+
+
+def _shape_overlap(rng):
+    """multi-node queries with overlapping neighbourhoods, every operation that takes a node set"""
+    A, B, P, C, D = 0, 1, 2, 3, 4
+    v = rng.choice(["common_parent", "parent_in_query", "common_child", "bidirected_pair", "diamond"])
+    if v == "common_parent":
+        di, bi = [(P, A), (P, B), (A, C)], [(A, B)]
+    elif v == "parent_in_query":
+        di, bi = [(A, B), (P, A), (B, C), (P, C)], [(B, C)]
+    elif v == "common_child":
+        di, bi = [(A, C), (B, C), (P, C), (C, D)], [(A, D)]
+    elif v == "bidirected_pair":
+        di, bi = [(P, A), (B, C)], [(A, B), (B, P), (C, D)]
+    else:
+        di, bi = [(P, A), (P, B), (A, C), (B, C), (C, D)], [(A, B), (P, D)]
+    g, lab = _embed(rng, 5, di, bi=bi, keep_order=rng.random() < 0.5)
+    S = [lab[A], lab[B]] + ([lab[rng.choice([P, C, D])]] if rng.random() < 0.3 else [])
+    rng.shuffle(S)
+    op = rng.choice(OPS_SET)
+    c = {"op": op, "g": g, "S": S, "shape": "overlap_" + v}
+    if op == "intervene":
+        c["stars"] = [rng.random() < 0.5 for _ in S]
+    return c
+
+
+def _shape_order(rng):
+    """one random graph, adversarial insertion orders; every operation"""
+    op = rng.choice(OPS_SET + OPS_NOARG + ["get_district"])
+    g0 = G.rand_graph(rng, 3, 7, acyclic=rng.random() < 0.8 or op in ("pre",))
+    nodes = G.all_nodes(g0)
+    v = rng.choice(["reverse_edges", "nodes_by_edges_only", "nodes_reversed", "bi_flipped", "sorted_everything"])
+    g = {"nodes": list(g0["nodes"]), "di": [list(e) for e in g0["di"]], "bi": [list(e) for e in g0["bi"]]}
+    if v == "reverse_edges":
+        g["di"].reverse()
+        g["bi"].reverse()
+    elif v == "nodes_by_edges_only":
+        touched = {x for e in g["di"] + g["bi"] for x in e}
+        g["nodes"] = [x for x in nodes if x not in touched]
+    elif v == "nodes_reversed":
+        g["nodes"] = sorted(nodes, reverse=True)
+    elif v == "bi_flipped":
+        g["bi"] = [[e[1], e[0]] for e in g["bi"]]
+    else:
+        g["nodes"] = sorted(nodes)
+        g["di"] = sorted(g["di"])
+        g["bi"] = sorted(sorted(e) for e in g["bi"])
+    c = {"op": op, "g": g, "shape": "order_" + v}
+    if op in OPS_SET:
+        c["S"] = G.rand_subset(rng, nodes, p=rng.choice([0.2, 0.5, 0.8]))
+    if op == "intervene":
+        c["stars"] = [rng.random() < 0.5 for _ in c["S"]]
+    if op == "get_district":
+        c["v"] = rng.choice(nodes)
+    return c
+
+
+def _linear_extension(rng, g):
+    nodes = G.all_nodes(g)
+    indeg = {x: 0 for x in nodes}
+    for u, w in g["di"]:
+        indeg[w] += 1
+    avail = [x for x in nodes if indeg[x] == 0]
+    out = []
+    while avail:
+        x = avail.pop(rng.randrange(len(avail)))
+        out.append(x)
+        for u, w in g["di"]:
+            if u == x:
+                indeg[w] -= 1
+                if indeg[w] == 0:
+                    avail.append(w)
+    return out
+
+
+def _shape_pre(rng):
+    g = G.rand_graph(rng, 2, 7, acyclic=True)
+    nodes = G.all_nodes(g)
+    ext = _linear_extension(rng, g)
+    v = rng.choice(["linear_extension", "permutation", "partial", "first_in_S", "S_disjoint", "foreign_names",
+                    "repeated_names", "empty_order", "default", "default_no_member", "S_outside_graph"])
+    S = G.rand_subset(rng, nodes, p=rng.choice([0.2, 0.4]))
+    order = list(ext)
+    op = "pre_order"
+    if v == "permutation":
+        rng.shuffle(order)
+    elif v == "partial":
+        order = [x for x in ext if rng.random() < 0.6]
+    elif v == "first_in_S":
+        S = list(dict.fromkeys(S + [order[0]]))
+    elif v == "S_disjoint":
+        order = [x for x in ext if x not in S]
+    elif v == "foreign_names":
+        order = list(ext)
+        order.insert(rng.randrange(len(order) + 1), 90)
+        if rng.random() < 0.5:
+            S = S + [90]
+    elif v == "repeated_names":
+        order = ext + [rng.choice(ext)]
+        rng.shuffle(order)
+    elif v == "empty_order":
+        order = []
+    elif v == "default":
+        op = "pre"
+    elif v == "default_no_member":
+        op, S = "pre", []
+    elif v == "S_outside_graph":
+        op, S = rng.choice(["pre", "pre_order"]), S + [91]
+    c = {"op": op, "g": g, "S": S, "shape": "pre_" + v}
+    if op == "pre_order":
+        c["order"] = order
+    return c
+
+
+def _shape_paths(rng):
+    """get_nodes_in_directed_paths: cyclic graphs, overlapping S and T, trivial paths, non-node arguments"""
+    a, b, c_, d, e = 0, 1, 2, 3, 4
+    v = rng.choice(["cycle_with_tail", "figure_eight", "self_loop_on_path", "target_behind_target", "S_meets_T_dag",
+                    "S_meets_T_cyclic", "s_equals_t_on_cycle", "unreachable_target", "non_node_dag", "non_node_cyclic",
+                    "empty_side_cyclic", "two_routes_dag", "back_edge_into_source"])
+    acyclic = False
+    if v == "cycle_with_tail":            # a -> b -> c -> b, c -> d
+        k, di, S, T = 4, [(a, b), (b, c_), (c_, b), (c_, d)], [a], [d]
+    elif v == "figure_eight":             # two cycles through c
+        k, di, S, T = 5, [(a, c_), (c_, b), (b, c_), (c_, d), (d, c_), (d, e)], [a], [e]
+    elif v == "self_loop_on_path":
+        k, di, S, T = 3, [(a, b), (b, b), (b, c_)], [a], [c_]
+    elif v == "target_behind_target":     # a -> b -> c, both b and c targets; cyclic or not
+        acyclic = rng.random() < 0.5
+        k, di, S, T = 4, [(a, b), (b, c_), (d, a)] + ([] if acyclic else [(c_, d)]), [a], [b, c_]
+    elif v == "S_meets_T_dag":            # S and T share b: the acyclic branch ignores the trivial path
+        acyclic = True
+        k, di, S, T = 4, [(a, b), (b, c_), (d, c_)], [a, b], [b, c_] if rng.random() < 0.5 else [b]
+    elif v == "S_meets_T_cyclic":         # the cyclic branch returns the shared node as a trivial path
+        k, di, S, T = 4, [(a, b), (b, a), (c_, d)], [c_, a], [c_] if rng.random() < 0.5 else [c_, b]
+    elif v == "s_equals_t_on_cycle":
+        k, di, S, T = 3, [(a, b), (b, c_), (c_, a)], [a], [a]
+    elif v == "unreachable_target":
+        acyclic = rng.random() < 0.5
+        k, di, S, T = 4, [(a, b), (c_, d)] + ([] if acyclic else [(b, a)]), [a], [d]
+    elif v == "non_node_dag":
+        acyclic = True
+        k, di, S, T = 3, [(a, b), (b, c_)], [a, 90], [c_] if rng.random() < 0.5 else [c_, 91]
+    elif v == "non_node_cyclic":
+        k, di, S, T = 3, [(a, b), (b, a), (b, c_)], [a] + ([90] if rng.random() < 0.5 else []), [c_, 91]
+    elif v == "empty_side_cyclic":        # product of the argument sets is empty: no lookup, no NodeNotFound
+        k, di = 3, [(a, b), (b, a), (b, c_)]
+        S, T = ([], [91, c_]) if rng.random() < 0.5 else ([90], [])
+    elif v == "two_routes_dag":
+        acyclic = True
+        k, di, S, T = 5, [(a, b), (b, d), (a, c_), (c_, d), (d, e)], [a], [d, e]
+    else:                                 # back_edge_into_source: t -> s closes a cycle through the source
+        k, di, S, T = 4, [(a, b), (b, c_), (c_, a), (b, d)], [a], [d]
+    g, lab = _embed(rng, k, di, acyclic=acyclic, keep_order=rng.random() < 0.5, extra=rng.choice([0, 0, 1, 2]),
+                    pd=0.2, pb=0.1)
+    m = lambda xs: [lab[x] if x < 90 else x for x in xs]  # noqa: E731
+    return {"op": "nodes_in_directed_paths", "g": g, "S": m(S), "T": m(T), "shape": "paths_" + v}
+
+
+def _shape_district(rng):
+    g = G.rand_graph(rng, 1, 7, acyclic=rng.random() < 0.7, pb=rng.choice([0.15, 0.3, 0.5]))
+    nodes = G.all_nodes(g)
+    v = rng.choice(["member", "member", "isolated", "non_node"])
+    iso = [x for x in nodes if x not in {y for e in g["di"] + g["bi"] for y in e}]
+    if v == "isolated" and iso:
+        x = rng.choice(iso)
+    elif v == "non_node":
+        x = 90
+    else:
+        v, x = "member", rng.choice(nodes)
+    return {"op": "get_district", "g": g, "v": x, "shape": "district_" + v}
+
+
+STRUCTURED = [(_shape_blanket, 5), (_shape_overlap, 4), (_shape_order, 3), (_shape_pre, 3), (_shape_paths, 4),
+              (_shape_district, 1)]
+
+
+def _random_case(rng):
+    op = rng.choice(OPS)
+    acyclic = not (op in CYCLIC_OK and rng.random() < 0.3)
+    g = G.rand_graph(rng, 0, 8 if op != "nodes_in_directed_paths" else 6, acyclic=acyclic)
+    nodes = G.all_nodes(g)
+    c = {"op": op, "g": g}
+    if op in OPS_SET or op == "pre_order":
+        c["S"] = G.rand_subset(rng, nodes, allow_outside=0.08)
+    if op == "nodes_in_directed_paths":
+        c["S"] = G.rand_subset(rng, nodes, p=rng.choice([0.2, 0.4]), allow_outside=0.03)
+        c["T"] = G.rand_subset(rng, nodes, p=rng.choice([0.2, 0.4]), allow_outside=0.03)
+    if op == "pre_order":
+        o = list(nodes)
+        rng.shuffle(o)
+        c["order"] = o if rng.random() < 0.9 else []
+    if op == "intervene":
+        c["S"] = [v for v in c["S"] if v in nodes]
+        c["stars"] = [rng.random() < 0.5 for _ in c["S"]]
+    if op == "get_district":
+        c["v"] = rng.choice(nodes) if nodes and rng.random() < 0.9 else 90
+    c["shape"] = "random"
+    return c
+
+
+def _exhaustive_small():
+    """every mixed graph without self-loops on 0..3 labelled nodes x every operation x every argument"""
+    out = []
+    for k in (0, 1, 2, 3):
+        subsets = [list(S) for r in range(k + 1) for S in itt.combinations(range(k), r)]
+        perms = [list(o) for o in itt.permutations(range(k))]
+        for g in G.enumerate_graphs(k, cyclic=True):
+            for op in OPS_SET:
+                for S in subsets:
+                    if op == "intervene":
+                        if S:
+                            out.append({"op": op, "g": g, "S": S, "stars": [False] * len(S)})
+                    else:
+                        out.append({"op": op, "g": g, "S": S})
+            for op in OPS_NOARG:
+                out.append({"op": op, "g": g})
+            for S in subsets:
+                for T in subsets:
+                    out.append({"op": "nodes_in_directed_paths", "g": g, "S": S, "T": T})
+                for o in perms + ([[]] if k else []):
+                    out.append({"op": "pre_order", "g": g, "S": S, "order": o})
+            for v in list(range(k)) + [90]:
+                out.append({"op": "get_district", "g": g, "v": v})
+    for c in out:
+        c["shuffle_seed"] = 1
+        c["shape"] = "exhaustive3"
+    return out
+
+
 def cases(rng: random.Random, tier: str):
-    out = [dict(c) for c in CORPUS]
-    n = 1500 if tier == "quick" else 12000
-    for _ in range(n):
-        op = rng.choice(OPS)
-        acyclic = not (op in CYCLIC_OK and rng.random() < 0.3)
-        g = G.rand_graph(rng, 0, 8 if op != "nodes_in_directed_paths" else 6, acyclic=acyclic)
-        nodes = G.all_nodes(g)
-        c = {"op": op, "g": g}
-        if op in OPS_SET or op == "pre_order":
-            c["S"] = G.rand_subset(rng, nodes, allow_outside=0.08)
-        if op == "nodes_in_directed_paths":
-            c["S"] = G.rand_subset(rng, nodes, p=rng.choice([0.2, 0.4]), allow_outside=0.03)
-            c["T"] = G.rand_subset(rng, nodes, p=rng.choice([0.2, 0.4]), allow_outside=0.03)
-        if op == "pre_order":
-            o = list(nodes)
-            rng.shuffle(o)
-            c["order"] = o if rng.random() < 0.9 else []
-        if op == "intervene":
-            c["S"] = [v for v in c["S"] if v in nodes]
-            c["stars"] = [rng.random() < 0.5 for _ in c["S"]]
+    out = [dict(c, shape="corpus") for c in CORPUS]
+    n_struct, n_rand = {"thorough": (100000, 200000), "escalated": (QUICK_STRUCTURED, QUICK_RANDOM // 4)}.get(
+        tier, (QUICK_STRUCTURED, QUICK_RANDOM))
+    gens = [f for f, w in STRUCTURED for _ in range(w)]
+    for _ in range(n_struct):
+        c = rng.choice(gens)(rng)
         c["shuffle_seed"] = rng.randrange(1 << 30)
         out.append(c)
-    if tier == "thorough":
-        for k in (1, 2, 3):
-            for g in G.enumerate_graphs(k, cyclic=True):
-                for op in ("remove_in_edges", "remove_out_edges", "remove_nodes_from", "subgraph",
-                           "ancestors_inclusive", "descendants_inclusive", "get_markov_pillow"):
-                    for r in range(k + 1):
-                        for S in itt.combinations(range(k), r):
-                            out.append({"op": op, "g": g, "S": list(S), "shuffle_seed": 1})
-                for op in ("districts", "topological_sort", "moralize", "disorient"):
-                    out.append({"op": op, "g": g, "shuffle_seed": 1})
+    for _ in range(n_rand):
+        c = _random_case(rng)
+        c["shuffle_seed"] = rng.randrange(1 << 30)
+        out.append(c)
+    if tier in ("thorough", "escalated"):
+        out += _exhaustive_small()
     return out
 
 
@@ -140,10 +483,18 @@ def _call(case, g):
                                         [[str(G.vint(u)), str(G.vint(v))] for u, v in r.edges()]])]
         elif op == "topological_sort":
             out = ["ok", [str(G.vint(v)) for v in graph.topological_sort()]]
-        elif op == "pre":
-            out = ["ok", [str(G.vint(v)) for v in graph.pre(S)]]
+        elif op == "pre" or (op == "pre_order" and not case["order"]):
+            r = graph.pre(S) if op == "pre" else graph.pre(S, [])
+            out = ["ok", [str(G.vint(v)) for v in r]]
+            # pre_spec: the prefix of topological_sort() that stops at the first member of S
+            ts = graph.topological_sort()
+            want = list(itt.takewhile(lambda x: x not in S, ts))
+            if list(r) != want:
+                extra = f"pre: {out[1]} is not the prefix of topological_sort() before the first member of S"
         elif op == "pre_order":
             out = ["ok", [str(G.vint(v)) for v in graph.pre(S, [G.V(i) for i in case["order"]])]]
+        elif op == "get_district":
+            out = ["ok", C.as_set([str(G.vint(v)) for v in graph.get_district(G.V(case["v"]))])]
         elif op == "nodes_in_directed_paths":
             T = {G.V(i) for i in case["T"]}
             out = ["ok", C.as_set([str(G.vint(v)) for v in get_nodes_in_directed_paths(graph, S, T)])]
@@ -180,6 +531,14 @@ def _expected(case):
     di = {tuple(e) for e in g["di"]}
     bi = {frozenset(e) for e in g["bi"]}
     S = set(case.get("S", []))
+    if op == "pre_order" and case["order"]:
+        # an explicit order is taken as given: the prefix before the first member of S (S may be anything)
+        return ["ok", [str(v) for v in itt.takewhile(lambda x: x not in S, case["order"])]]
+    if op == "get_district":
+        if case["v"] not in V:
+            return ["err"]
+        nb = lambda v: {w for e in bi if v in e for w in e}  # noqa: E731
+        return ["ok", C.as_set([str(v) for v in _closure({case["v"]}, nb)])]
     if not S <= V or (op == "intervene" and not S):
         return None  # the property quantifies over node subsets of the graph
     pa = lambda v: {u for (u, w) in di if w == v}  # noqa: E731
@@ -244,46 +603,115 @@ def _oracle(case, out):
         if any(pos[u] >= pos[v] for (u, v) in di):
             return "topological_sort violates an edge"
         del desc
-    if op == "nodes_in_directed_paths" and out[0] == "ok":
+    if op in ("pre", "pre_order") and not case.get("order"):
+        cyc = _is_cyclic(V, di)
+        if cyc:
+            return None if out[0] == "err" else "pre returned a prefix although the graph has no topological order"
+        if out[0] != "ok":
+            return "pre failed on an acyclic graph"
+        P = [int(x) for x in out[1]]
+        S = set(case.get("S", []))
+        if len(set(P)) != len(P) or not set(P) <= V or set(P) & S:
+            return f"pre: {P} repeats a node, leaves the graph or contains a member of S"
+        if any(u not in P for (u, w) in di if w in P):
+            return f"pre: {P} is not closed under parents, so it is not a prefix of a topological order"
+        if not (S & V) and set(P) != V:
+            return f"pre: no member of S in the graph, yet {P} is not all nodes"
+    if op == "nodes_in_directed_paths":
+        # ONE definition for both implementations: the nodes on simple directed paths WITH AT LEAST ONE EDGE from a member of
+        # S to a member of T (so a member of S & T is returned only if it lies on such a path).  Non-node arguments: the
+        # implementation for acyclic graphs ignores them, the one for cyclic graphs (nx.all_simple_paths) raises
+        # NodeNotFound when both sets are non-empty; the oracle has no opinion there (the property quantifies over node
+        # subsets), the theorems nodesInDirectedPaths_dag_spec / _cyclic_error say which is which.
         S, T = set(case["S"]), set(case["T"])
-        if S <= V and T <= V and not (S & T):
-            exp = set()
+        cyc = _is_cyclic(V, di)
+        if not (S <= V and T <= V):
+            return None         # no opinion: the model and the real code must still agree (correspondence)
+        if out[0] != "ok":
+            return f"nodes_in_directed_paths failed: {out}"
+        exp = set()
 
-            def dfs(path, t):
-                cur = path[-1]
-                if cur == t:
-                    exp.update(path)
-                    return
-                for (u, w) in di:
-                    if u == cur and w not in path:
-                        dfs(path + [w], t)
-            for s in S:
-                for t in T:
-                    dfs([s], t)
-            if C.as_set([str(v) for v in exp]) != out[1]:
-                return f"nodes_in_directed_paths: expected {sorted(exp)} got {out[1]}"
+        def dfs(path, t):
+            cur = path[-1]
+            if cur == t and len(path) > 1:
+                exp.update(path)
+                return          # a simple path ends at its first visit of the target
+            for (u, w) in di:
+                if u == cur and w not in path:
+                    dfs(path + [w], t)
+        for s_ in S & V:
+            for t in T & V:
+                dfs([s_], t)
+        if C.as_set([str(v) for v in exp]) != out[1]:
+            return f"nodes_in_directed_paths: expected {sorted(exp)} got {out[1]} ({'cyclic' if cyc else 'acyclic'} branch)"
     return None
+
+
+def _is_cyclic(V, di):
+    ch = lambda x: {w for (u, w) in di if u == x}  # noqa: E731
+    return any(v in _closure(ch(v), ch) for v in V)
+
+
+ORDER_FREE = ("topological_sort", "pre")     # results that legitimately depend on the insertion order
+
+
+def _features(case, V, di):
+    """semantic tags of rare shapes, computed from the case itself (whatever generator produced it)"""
+    op = case["op"]
+    f = {}
+    pa = lambda v: {u for (u, w) in di if w == v}  # noqa: E731
+    ch = lambda v: {w for (u, w) in di if u == v}  # noqa: E731
+    S = set(case.get("S", [])) & V
+    if op == "get_markov_blanket" and S:
+        chS = set().union(*[ch(s) for s in S])
+        paS = set().union(*[pa(s) for s in S])
+        # a child of the query that is also in the blanket for another reason and has a parent outside the query
+        hot = [c for c in chS if (c in paS or any(c in pa(c2) for c2 in chS if c2 != c)) and pa(c) - S]
+        f["mb_child_already_in_blanket"] = bool(hot)
+        f["mb_shared_child"] = any(len(pa(c) & S) >= 2 for c in chS)
+        f["mb_query_size"] = min(len(S), 3)
+    if op == "get_markov_pillow" and S:
+        f["pillow_parent_inside_query"] = any(pa(s) & S for s in S)
+        f["pillow_common_parent"] = any(pa(a) & pa(b) for a in S for b in S if a < b)
+    if op == "nodes_in_directed_paths":
+        T = set(case["T"])
+        f["paths_branch"] = "cyclic" if _is_cyclic(V, di) else "acyclic"
+        f["paths_S_meets_T"] = bool(set(case["S"]) & T)
+        f["paths_non_node_arg"] = not (set(case["S"]) <= V and T <= V)
+    if op == "pre_order":
+        o = case["order"]
+        f["pre_order_kind"] = ("empty" if not o else "foreign" if not set(o) <= V else "repeated" if len(set(o)) != len(o)
+                               else "partial" if set(o) != V else
+                               "linear_extension" if all(o.index(u) < o.index(w) for (u, w) in di) else "not_topological")
+    if op in ("topological_sort", "pre"):
+        f["graph_cyclic"] = _is_cyclic(V, di)
+    return f
 
 
 def run_python(case):
     g = case["g"]
     out, extra = _call(case, g)
     fail = extra or _oracle(case, out)
-    if fail is None and case["op"] not in ("topological_sort", "pre") and not (case["op"] == "pre_order" and not case["order"]):
+    order_free = case["op"] in ORDER_FREE or (case["op"] == "pre_order" and not case["order"])
+    if fail is None:
         g2 = G.shuffled(random.Random(case.get("shuffle_seed", 0)), g)
-        c2 = dict(case)
-        if "order" in case:
-            c2["order"] = case["order"]
-        out2, _ = _call(c2, g2)
-        if out2 != out:
+        out2, extra2 = _call(case, g2)
+        if order_free:
+            # the exact list may differ; it must still satisfy the same specification on the re-inserted graph
+            fail = extra2 or _oracle(dict(case, g=g2), out2)
+            if fail is None and out2[0] != out[0]:
+                fail = f"{case['op']}: success depends on insertion order: {out} vs {out2} (graph {g2})"
+        elif out2 != out:
             fail = f"{case['op']}: result depends on insertion order: {out} vs {out2} (graph {g2})"
     V = G.all_nodes(g)
     S = case.get("S")
     nontrivial = len(V) >= 3 and (bool(g["di"]) and bool(g["bi"]) or len(V) > len({x for e in g["di"] + g["bi"] for x in e})) \
         and (S is None or 0 < len(set(S) & set(V)) < len(V))
-    tags = {"op": case["op"], "n_nodes": len(V), "outcome": out[0],
+    tags = {"op": case["op"], "n_nodes": len(V), "outcome": out[0], "shape": case.get("shape", "unknown"),
             "has_isolated": len(V) > len({x for e in g["di"] + g["bi"] for x in e}),
-            "arg_outside_graph": bool(S) and not set(S) <= set(V)}
+            "arg_outside_graph": bool(S) and not set(S) <= set(V),
+            "insertion_order_not_sorted": g["nodes"] != sorted(V) or g["di"] != sorted(g["di"])}
+    tags.update(_features(case, set(V), {tuple(e) for e in g["di"]}))
     return {"out": out, "fail": fail, "nontrivial": nontrivial, "tags": tags}
 
 
@@ -299,6 +727,8 @@ def request(case):
         return C.enc(["graph", op, gs, case["S"], case["T"]])
     if op == "pre_order":
         return C.enc(["graph", op, gs, case["S"], case["order"]])
+    if op == "get_district":
+        return C.enc(["graph", op, gs, case["v"]])
     return C.enc(["graph", op, gs, case["S"]])
 
 
@@ -326,7 +756,9 @@ def shrink(case):
             c["S"] = [c["S"][i] for i in keep]
             c["stars"] = [c["stars"][i] for i in keep]
         if "order" in c:
-            c["order"] = [v for v in c["order"] if v in live]
+            c["order"] = [v for v in c["order"] if v in live or v >= 90]
+        if "v" in c and c["v"] not in live and c["v"] < 90:
+            continue
         yield c
     for key in ("S", "T"):
         if key in case and case["op"] != "intervene":
@@ -338,20 +770,26 @@ def shrink(case):
 
 def finding_key(case, res):
     import json
-    c = {k: case[k] for k in ("op", "g", "S", "T", "order") if k in case}
+    c = {k: case[k] for k in ("op", "g", "S", "T", "order", "v") if k in case}
     return json.dumps(c, sort_keys=True)
 
 
 MANIFEST = {
-    "text": ("Proof: 40+ Lean theorems characterise, for every mixed graph and every node subset, the node set, directed "
-             "edge set and bidirected edge set of subgraph / remove_in_edges / remove_out_edges / remove_nodes_from / "
-             "intervene, ancestors and descendants as reflexive-transitive closures, districts as the partition by "
-             "bidirected connectivity, Markov pillow/blanket, disorient, pre, and insertion-order independence "
-             "(congruence under NxMixedGraph.__eq__). The model is tied to graph.py by the correspondence check on every "
-             "run. moralize / topological_sort / get_nodes_in_directed_paths are covered by correspondence + oracle; "
-             "their theorems are listed in DESIGN.md as open or done."),
+    "text": ("Proof: 79 Lean theorems about the executable model of graph.py characterise, for every well-formed mixed graph and "
+             "every node subset: node set, directed and bidirected edge sets of subgraph / remove_in_edges / remove_out_edges / "
+             "remove_nodes_from / intervene / moralize / disorient; ancestors and descendants as reflexive-transitive closures; "
+             "districts as the partition by bidirected connectivity (get_district total exactly on nodes); Markov pillow and "
+             "blanket (total exactly on node arguments); topological_sort (networkx's generation-wise Kahn algorithm) returns a "
+             "linear extension, returns whenever the graph is acyclic and raises NetworkXUnfeasible exactly when it has a "
+             "directed cycle (loop invariant + fuel bound); pre = prefix of that order before the first member of S, closed "
+             "under parents; get_nodes_in_directed_paths = nodes on simple directed paths from S to T in both implementations "
+             "(transitive closure on DAGs, DFS enumeration with fuel on cyclic graphs); and insertion-order independence of "
+             "every operation (congruence under NxMixedGraph.__eq__; for topological_sort: valid for every insertion order). "
+             "The model is tied to graph.py by the correspondence check on every run (100 000 cases quick; thorough adds every "
+             "mixed graph on <= 3 labelled nodes x every operation x every argument)."),
     "note": ("Trusted: Lean kernel; axioms propext/Classical.choice/Quot.sound; the hand-written model of graph.py and "
-             "networkx (insertion-ordered dict semantics, nx.ancestors error behaviour) tied to the code by sampling; "
-             "'receiver unchanged' is a runtime clause checked by the harness on every call, not a theorem."),
-    "technique": "Lean 4 theorems (induction over from_edges folds, fuel-bounded closure = ReflTransGen) + differential correspondence with the real NxMixedGraph + set-theoretic oracle",
+             "networkx (insertion-ordered dict semantics, nx.ancestors / all_simple_paths error behaviour, "
+             "topological_generations) tied to the code by sampling; 'receiver unchanged' is a runtime clause checked by the "
+             "harness on every call, not a theorem."),
+    "technique": "Lean 4 theorems (induction over from_edges folds, fuel-bounded closure = ReflTransGen, Kahn loop invariant, DFS path enumeration) + differential correspondence with the real NxMixedGraph + set-theoretic oracle",
 }
